@@ -38,3 +38,4 @@ def check(ctx):
     drivers.phase_shortcut(ctx)
     drivers.sv_current_hamiltonian(ctx)
     drivers.sv_solver_table(ctx)
+    drivers.adapter_column_order(ctx)
